@@ -162,7 +162,7 @@ fn transposition_probe(out: &mut Out, b: &ChessBoard, rng: &mut Rng) -> bool {
 }
 
 fn zobrist(tier: usize, seed: u64, out: &mut Out) {
-    out.emit("zob", &obs_zob());
+    out.emit("zob", &format!("keys={}", obs_zob()));
     let seeds = load_seeds(&mut out.stats);
     let mut rng = Rng::new(seed, 301);
     let probes_wanted = ZOB_PROBES[tier];
@@ -271,10 +271,6 @@ fn san(tier: usize, seed: u64, out: &mut Out) {
         let b = v.board;
         with_raw(out, b, |out, r| {
             let o = obs_sanall(b);
-            for flag in ['f', 'r', 's'] {
-                let n = o.matches(&format!("{flag},")).count();
-                let _ = n;
-            }
             if o.contains("dup=1") {
                 out.stats.inc("san.positions_with_duplicate_san");
             }
